@@ -58,6 +58,7 @@ XLS_FEATURES = {
     "numeric-header": "a number in the header row (twin: text header)",
     "header-only-sheet": "a sheet with a single row (twin: two rows)",
     "leading-empty-row": "data starts in the second sheet row (twin: first row)",
+    "empty-row-inside": "a row without any cell record between the header row and the last row (twin: the row holds one text cell)",
     "empty-sheet": "a sheet without any cell between other sheets (twin: a one-column sheet)",
     "picture-spanning-continue-records": "an embedded picture larger than one BIFF record (8224 bytes): MSODRAWINGGROUP + CONTINUE records (twin: a small picture in one record)",
     "cp1252-summary": "SummaryInformation strings in code page 1252 with non-ASCII characters (twin: code page 65001)",
@@ -481,6 +482,8 @@ def build_xls(seed: int, feature: str | None = None, twin: bool = False):
             cols = max(3, cols)
         if is_f and feature in ("leading-empty-row", "numeric-header"):
             cols = max(2, cols)
+        if is_f and feature == "empty-row-inside":
+            rows = max(4, rows)
         if is_f and feature == "header-only-sheet":
             rows = 1 if not twin else 2
         if is_f and feature == "empty-sheet":
@@ -491,6 +494,17 @@ def build_xls(seed: int, feature: str | None = None, twin: bool = False):
         recs: list[list[tuple]] = []       # per row: (col, kind, payload)
         for i in range(rows):
             grow, rrow = [], []
+            if is_f and feature == "empty-row-inside" and i == 2:
+                # no record at all for this row (the ROW record stays: it describes the row, it is not a cell)
+                if twin:
+                    t = exp.text(tk.new("c"), s)
+                    rrow.append((0, "sst", shared(t)))
+                    grow = [{"toks": [t]}] + [{"empty": True}] * (cols - 1)
+                else:
+                    grow = [{"empty": True}] * cols
+                grid.append(grow)
+                recs.append(rrow)
+                continue
             for j in range(cols):
                 if i == 0:                  # header row: distinct non-empty text (the extractor keys rows by it)
                     if is_f and feature == "duplicate-header" and j in fcols:
